@@ -143,3 +143,14 @@ def krow_reader_obligations():
             bounds="row of 2 cell-runs, repeats <= 2, start/end <= 5 (expanding readers loop over every position)",
             encodes=KT_ENCODES[1:2], stubs=KT_STUBS),
     ]
+
+
+def ragged_obligations(which: int):
+    out = []
+    for op, secs in (("delete_column", 60), ("insert_column", 55)):
+        fn = f"kt_ragged_{op}"
+        out.append(Obl(name=fn, module="h_ktab", func=fn, timeout=300, replay="r_h_ktab:ragged", env={"VERIF_WHICH": str(which)},
+                       extra={"op": op, "which": which}, weight=secs,
+                       bounds="ragged table: row of w0 cells, r1 rows of w1 cells, max(w0,w1)+extra declared columns, all unbounded symbolic ints",
+                       encodes=KT_ENCODES, stubs=KT_STUBS))
+    return out
